@@ -257,8 +257,18 @@ Definition check_property (c : case) : bool :=
                first embed into plain texts *)
             negb ((plain_ctx (c_ctx c) || neighbour_ctx c) && Nat.leb (length (ctx_embeds (c_ctx c))) 1)
   | LStatus k _ =>
-      (* every non-OK code maps back to a class, never to nil *)
-      if c_built c && negb (code_eqb k OK) then is_some_class (o_from (c_e c)) else true
+      (* every non-OK code maps back to a class, never to nil - and to exactly one: the classes the status error
+         is a member of according to Is are that class and no other (in a chain; a layer with several operands may
+         bring classes of its own) *)
+      if c_built c && negb (code_eqb k OK) then
+        is_some_class (o_from (c_e c))
+        && (if ctx_linear (c_ctx c)
+            then match o_from (c_e c) with
+                 | Some cl => class_list_eqb (o_is (c_e c)) [cl]
+                 | None => true
+                 end
+            else true)
+      else true
   | LPlain _ => true
   | LIsLeaf _ _ => true     (* not a chain around the sentinel itself: compared in the exact mode only *)
   end.
